@@ -17,7 +17,7 @@ from ..stats import two_stage
 
 ID = "C06"
 RULE = ("random inputs per loader: manual = random dict; empirical = random observed sequence with repeats (N 1..500); "
-        "function = non-separable positive table/function on a box up to 8 wide per dimension, 1..3 topologies; marginal = "
+        "function = non-separable positive table/function on a box up to 8 wide per dimension, 1..3 topologies, a quarter of them joint functions doing exact integer arithmetic on the degrees they are handed (binomial weights, the library's poisson with an int mean; box up to degree 58); marginal = "
         "gcmpy's own distributions or positive tables, direct and sampling mode (n_samples 20000); every loader through "
         "the direct constructor and the dispatcher (all seven JointDegreeType values for the path-equality clause); "
         "non-trivial = support >= 4 points and >= 2 distinct probabilities; distinct = SHA-1 of the concrete input")
